@@ -7,7 +7,8 @@ out.append('### 6.5 Which checks catch which deliberate changes\n')
 out.append('**Blind seeds** (`/verif/seeded/<id>/`: patch.diff, demo.py, NOTES.md, meta.json, confirm.log). Each was produced by a sub-agent that saw only the\n'
            'property text and its own worktree (rounds 2-4 additionally the list of the earlier changes to that property, to stay away from them;\n'
            'round 4 a steer towards rarely used options, alternative code paths and argument forms; round 5 = ids ending in e, one per\n'
-           'property, produced in the continuation session with the same brief and steer), and was kept only after\n'
+           'property, produced in the continuation session with the same brief and steer; round 6 = ids ending in f, six properties, steered towards state\n'
+           'carried between objects or calls and reconfiguration between solve calls), and was kept only after\n'
            '`tools/confirm_seed.sh` showed in a fresh worktree of /repo HEAD: the 97 repository tests pass with it, its demonstration fails with it\n'
            'and passes without it. "first" = verdict of the check as it stood when the seed arrived; every miss led to a strengthening of the check\n'
            '(never of the tolerance), after which the seed is caught by the **quick** tier.\n')
